@@ -3,6 +3,7 @@ import BctVerif.Lemmas.WalksCount
 import BctVerif.Lemmas.WalksTail
 import BctVerif.Lemmas.WalksPost
 import BctVerif.Lemmas.WalksExp
+import BctVerif.Lemmas.WalksPrTotal
 /-!
 # C18 — random-walk and spectral measures satisfy their defining equations
 
@@ -14,7 +15,8 @@ over an arbitrary (ordered) field.
 * `mfpt_eq`              – `M i j = 1 + Σ_{k≠j} P i k · M k j`, `M j j = 0`, `P` = row-normalised `A`
 * `diffeff_spec`         – `E i j · M i j = 1` off the diagonal, `E i i = 0`, `g = ΣE/(n²−n)`
 * `pagerank_prior`, `pagerank_sum_one`, `pagerank_system`, `pagerank_eq`, `pagerank_pos`, `pagerank_pos_default`,
-  `pagerank_unique`
+  `pagerank_unique`, `pagerank_matrix_invertible`, `pagerank_solution_exists_unique`, `pagerank_total` (the model returns on every
+  non-negative matrix, `0 ≤ d < 1`), `pagerank_model_is_solution`
 * `findwalks_power`      – slice `q` = `C^q` = number of walks of length `q` (`walkCount`), slice 0 = 0
 * `findwalks_counts_walks` – … = length of a duplicate-free enumeration of all node sequences that are walks from i to j
 * `subgraph_spectral`    – `Σ_k V i k² · Σ_{m<T} λ_k^m/m! = expDiag A T i` for every *orthonormal* eigenbasis
@@ -232,6 +234,47 @@ example : colDeg (scaleQ weak3 8) 1 = 1 / 8 ∧ (∀ j : Fin 3, ∑ i, (scaleQ w
       | _, _ => false) = true ∧
     (match mfpt (scaleQ weak3 8) with | .ok o => o.M.get 1 2 == 8/3 | _ => false) = true := by
   decide +kernel
+
+
+/-- **existence**: the matrix `I − d·A·D1` the code hands to `linalg.solve` (with the `deg == 0 → 1` convention) is invertible
+for every non-negative `A` and `0 ≤ d < 1` — its columns are strictly diagonally dominant -/
+theorem pagerank_matrix_invertible (A : QMat n) (d : ℚ) (hA : ∀ i j, 0 ≤ A.get i j) (hd0 : 0 ≤ d) (hd1 : d < 1) :
+    (toMat (prMat A d)).det ≠ 0 :=
+  prMat_det_ne_zero A d hA hd0 hd1
+
+/-- hence the linear system has exactly one solution for every right-hand side (dangling columns included) -/
+theorem pagerank_solution_exists_unique (A : QMat n) (d : ℚ) (hA : ∀ i j, 0 ≤ A.get i j) (hd0 : 0 ≤ d) (hd1 : d < 1)
+    (b : Fin n → ℚ) : ∃! r : Fin n → ℚ, toMat (prMat A d) *ᵥ r = b :=
+  prMat_exists_unique A d hA hd0 hd1 b
+
+/-- **totality of the model**: for non-negative weights, `0 ≤ d < 1` and no prior or a non-negative prior with non-zero
+sum, `pagerank` returns (never `singular`, `cert` or `zerodiv`): the Gauss–Jordan elimination of the model is complete on
+invertible systems (`solveGJ_complete`), its result passes the certificate, and `Σ r0 ≥ 1 − d > 0`.  Together with
+`pagerank_sum_one` / `pagerank_system` / `pagerank_eq` / `pagerank_pos` / `pagerank_unique` the PageRank clause is
+unconditional on this domain. -/
+theorem pagerank_total (A : QMat n) (d : ℚ) (f : Option (Vector Int n)) (hn : 0 < n)
+    (hA : ∀ i j, 0 ≤ A.get i j) (hd0 : 0 ≤ d) (hd1 : d < 1)
+    (hf : ∀ g, f = some g → (∀ i : Fin n, 0 ≤ g[i]) ∧ ∑ i : Fin n, (g[i] : ℚ) ≠ 0) :
+    ∃ o, pagerank A d f = .ok o :=
+  Walks.pagerank_total A d f hn hA hd0 hd1 hf
+
+/-- any certified output of the model is *the* solution of the system (so two runs that return agree) -/
+theorem pagerank_model_is_solution (A : QMat n) (d : ℚ) (f : Option (Vector Int n)) (o : PrOut n)
+    (h : pagerank A d f = .ok o) (hA : ∀ i j, 0 ≤ A.get i j) (hd0 : 0 ≤ d) (hd1 : d < 1) (r' : Fin n → ℚ)
+    (hr' : toMat (prMat A d) *ᵥ r' = fun i => (1 - d) * o.f[i]) : ∀ i : Fin n, r' i = o.r0[i] := by
+  obtain ⟨-, hsol, -, -⟩ := pagerank_ok h
+  have hsol' := (solves_iff _ _ _).mp hsol
+  have h0 : toMat (prMat A d) *ᵥ (fun i : Fin n => o.r0[i]) = fun i => (1 - d) * o.f[i] := by
+    ext i
+    have := hsol' i
+    simpa [Matrix.mulVec, dotProduct] using this
+  obtain ⟨r, -, huniq⟩ := prMat_exists_unique A d hA hd0 hd1 (fun i => (1 - d) * o.f[i])
+  intro i
+  rw [huniq r' hr', ← huniq _ h0]
+
+example : ∃ o, pagerank (scaleQ weak3 8) (1/2) none = .ok o :=
+  pagerank_total _ _ _ (by norm_num) (by decide +kernel) (by norm_num) (by norm_num)
+    (fun g h => by cases h)
 
 /-! ## findwalks -/
 
